@@ -1,6 +1,192 @@
-(* C11 — placeholder while the proofs are being built *)
-From Coq Require Import List NArith.
+(* C11 — Message routing is exact under every delivery order; broadcast is consistent.
+   Property theorems only; proofs are in proofs/Router_proofs.v and proofs/Echo_proofs.v.
+
+   The router model (model/Router.v) is a transition system whose atomic steps are the
+   lock-protected regions of pkg/network/router.go.  [reach q tr s] says that state [s] is
+   reached from [init q] by SOME finite sequence of atomic steps whose history (event and
+   output of every step, newest first) is [tr]; by C11_reach_is_every_run this is exactly
+   "every finite event list run from the initial state", i.e. every interleaving of
+   deposits, receives, wake-ups, cancellations, failures, with any number of correlation
+   ids, namespaces and parties.  Specification functions over the history:
+     pending_r tr c f  first payload filed from sender f under full id c since the last
+                       consumption of (c, f)              (characterised by C11_pending_spec)
+     blame_r tr c      sender of the latest conflicting retransmission under c
+     entered_r tr c    sender list of the receive attached to c
+   Constants, the buffer test and the id prefixing are gen/RouterConsts.v (regenerated). *)
+From Coq Require Import List NArith ZArith.
 Import ListNotations.
-Require Import V.base.Bytes V.gen.RouterConsts V.model.Router V.model.Echo.
-Example C11_placeholder : fst (step (init [1%N]) Shutdown) = fail_locked (init [1%N]) FClosed.
-Proof. reflexivity. Qed.
+Require Import V.base.Bytes V.gen.RouterConsts V.model.Router V.proofs.Router_proofs.
+Require Import V.model.Echo V.proofs.Echo_proofs.
+
+(* reach = all finite event sequences *)
+Theorem C11_reach_is_every_run : forall q,
+  (forall evs, reach q (history (init q) evs) (fst (run (init q) evs))) /\
+  (forall tr s, reach q tr s -> exists evs, tr = history (init q) evs /\ s = fst (run (init q) evs)).
+Proof. exact reach_is_every_run. Qed.
+Print Assumptions C11_reach_is_every_run.
+
+(* a completed receive returns exactly one payload per requested sender (duplicates in the
+   request collapse): the first one filed from that member sender under that full id since the
+   last consumption — hence never one of another id, namespace or a non-member *)
+Theorem C11_recv_exact : forall q tr s c s' res,
+  reach q tr s -> step s (RecvCheck c) = (s', ORecvOk res) ->
+  exists froms, entered_r tr c = Some froms /\ map fst res = dedup froms /\ NoDup (map fst res) /\
+    (forall f, In f froms -> exists p, In (f, p) res) /\
+    (forall f p, In (f, p) res ->
+       pending_r tr c f = Some p /\ In f q /\ exists d, In (Deposit f c p, ODep d) tr /\ filed d = true).
+Proof. exact recv_exact. Qed.
+Print Assumptions C11_recv_exact.
+
+Theorem C11_pending_spec : forall tr c f p,
+  pending_r tr c f = Some p <->
+  exists newer older d, tr = newer ++ (Deposit f c p, ODep d) :: older /\ filed d = true /\
+    pending_r older c f = None /\ (forall eo, In eo newer -> ~ consumes c f eo).
+Proof. exact pending_r_spec. Qed.
+Print Assumptions C11_pending_spec.
+
+(* an identical retransmission leaves the router state untouched *)
+Theorem C11_dup_absorbed : forall q tr s f c p,
+  reach q tr s -> reader s = RRunning -> pending_r tr c f = Some p ->
+  step s (Deposit f c p) = (s, ODep DAbsorbed).
+Proof. exact dup_absorbed. Qed.
+Print Assumptions C11_dup_absorbed.
+
+(* a different retransmission before consumption poisons the mailbox tagging that sender;
+   from then on every enabled check of that id fails blaming the sender of the latest
+   conflict, and a check blames g only after a real conflict by g *)
+Theorem C11_conflict_poisons : forall q tr s c,
+  reach q tr s ->
+  (forall f p p', reader s = RRunning -> pending_r tr c f = Some p -> p <> p' ->
+     snd (step s (Deposit f c p')) = ODep DPoisoned /\
+     blame_r ((Deposit f c p', snd (step s (Deposit f c p'))) :: tr) c = Some f) /\
+  (forall g s' o, blame_r tr c = Some g -> step s (RecvCheck c) = (s', o) ->
+     o = ODisabled \/ o = ORecvErr (EConflict g)) /\
+  (forall g s', step s (RecvCheck c) = (s', ORecvErr (EConflict g)) -> blame_r tr c = Some g) /\
+  (forall g, blame_r tr c = Some g ->
+     exists newer older p p' d, tr = newer ++ (Deposit g c p', ODep d) :: older /\ filed d = true /\
+       pending_r older c g = Some p /\ p <> p') /\
+  (forall eo, blame_r tr c <> None -> blame_r (eo :: tr) c <> None).
+Proof. exact conflict_poisons. Qed.
+Print Assumptions C11_conflict_poisons.
+
+(* no step other than a deposit or a completing check changes any mailbox content — in
+   particular a cancelled or failed receive and its clean-up lose nothing — and a later
+   receive on that id gets exactly the pending payloads *)
+Theorem C11_cancel_loses_nothing : forall q tr s,
+  reach q tr s ->
+  (forall e, (forall f c p, e <> Deposit f c p) -> (forall res, snd (step s e) <> ORecvOk res) ->
+     forall c f, pl (fst (step s e)) c f = pl s c f) /\
+  (forall c f, pl s c f = pending_r tr c f) /\
+  (forall c froms, fatal s = None -> entered_r tr c = None -> blame_r tr c = None ->
+     (forall f, In f froms -> pending_r tr c f <> None) ->
+     snd (step s (RecvEnter c froms)) = OEntered /\
+     exists res, snd (step (fst (step s (RecvEnter c froms))) (RecvCheck c)) = ORecvOk res /\
+       map fst res = dedup froms /\ forall f p, In (f, p) res -> pending_r tr c f = Some p).
+Proof. exact cancel_loses_nothing. Qed.
+Print Assumptions C11_cancel_loses_nothing.
+
+(* buffered = sum of the mailbox sizes; a deposit is bounced only when that count has reached
+   the regenerated bound; the buffer-full failure arises from nothing else *)
+Theorem C11_buffer_accounting : forall q tr s,
+  reach q tr s ->
+  (buffered s = total (boxes s) /\ (0 <= buffered s)%Z) /\
+  (forall f c p, snd (step s (Deposit f c p)) = ODep DOverflow -> (maxReceiveBufferSize <= buffered s)%Z) /\
+  (fatal s = Some FBufferFull -> exists e, In (e, ODep DOverflow) tr).
+Proof. exact buffer_accounting_all. Qed.
+Print Assumptions C11_buffer_accounting.
+
+(* a parked receiver whose mailbox is complete or poisoned, or whose router failed, or that was
+   cancelled, can always be woken (token, ctx.Done or failed) and its next check returns *)
+Theorem C11_no_lost_wakeup : forall q tr s c w,
+  reach q tr s -> mb_waiter (view s c) = Some w -> w_phase w = Parked -> ready s c w ->
+  exists e, (e = WakeToken c \/ e = WakeAlt c) /\ snd (step s e) = OWoken /\
+    exists o, snd (step (fst (step s e)) (RecvCheck c)) = o /\
+      ((exists res, o = ORecvOk res) \/ (exists err, o = ORecvErr err)).
+Proof. exact no_lost_wakeup. Qed.
+Print Assumptions C11_no_lost_wakeup.
+
+(* full ids of distinct (namespace path, id) pairs are distinct, provided no name contains the
+   separator byte '/' (not enforced by the code: DESIGN §6) ; sender and receiver agree *)
+Theorem C11_namespace_injective : forall nss nss' c c',
+  (forall n, In n nss -> ~ In 47%N n) -> (forall n, In n nss' -> ~ In 47%N n) -> ~ In 47%N c -> ~ In 47%N c' ->
+  recv_full nss c = recv_full nss' c' -> nss = nss' /\ c = c'.
+Proof. exact namespace_injective. Qed.
+Print Assumptions C11_namespace_injective.
+
+Theorem C11_sender_receiver_same_id : forall nss c, send_full nss c = recv_full nss c.
+Proof. exact send_recv_agree. Qed.
+Print Assumptions C11_sender_receiver_same_id.
+
+(* the hypothesis cannot be dropped *)
+Theorem C11_namespace_injective_needs_hypothesis_refuted :
+  exists nss nss' c c', recv_full nss c = recv_full nss' c' /\ nss <> nss'.
+Proof. exact namespace_needs_hypothesis. Qed.
+Print Assumptions C11_namespace_injective_needs_hypothesis_refuted.
+
+(* echo broadcast: two honest parties that both accept hold the same payload from every third
+   sender S, whatever S sent to whom (digest = injective term); and what they hold from a sender
+   is what they received from it in round 1 *)
+Theorem C11_echo_agreement : forall quorum P Q S stP stQ r1P r1Q stP' stQ' outP outQ r2P r2Q resP resQ,
+  In P quorum -> In Q quorum -> In S quorum -> P <> Q -> S <> P -> S <> Q ->
+  round2 P quorum stP r1P = Some (stP', outP) ->
+  round2 Q quorum stQ r1Q = Some (stQ', outQ) ->
+  alookup N.eqb Q r2P = alookup N.eqb P outQ ->
+  round3 P quorum stP' r2P = Some resP ->
+  round3 Q quorum stQ' r2Q = Some resQ ->
+  exists m, alookup N.eqb S resP = Some m /\ alookup N.eqb S resQ = Some m.
+Proof. exact echo_agreement. Qed.
+Print Assumptions C11_echo_agreement.
+
+Theorem C11_echo_holds_received : forall quorum P S stP r1P stP' outP r2P resP,
+  In P quorum -> In S quorum -> S <> P ->
+  round2 P quorum stP r1P = Some (stP', outP) ->
+  round3 P quorum stP' r2P = Some resP ->
+  alookup N.eqb S resP = alookup N.eqb S r1P.
+Proof. exact echo_holds_received. Qed.
+Print Assumptions C11_echo_holds_received.
+
+(* ---- the hypotheses are satisfiable by non-trivial instances -------------------------------- *)
+
+(* a receive for senders 1 and 2 under "a/bc": parks, sender 1 arrives, wakes and parks again, an
+   identical retransmission is absorbed, sender 1 under another id and a non-member are kept apart,
+   sender 2 arrives, the receive completes with exactly the two payloads *)
+Example C11_nonvacuous_receive :
+  let c := recv_full [[97]]%N [98; 99]%N in
+  let c2 := recv_full [[97; 98]]%N [99]%N in
+  snd (run (init [1; 2; 9]%N)
+        [RecvEnter c [1; 2; 2]%N; RecvCheck c; Deposit 1%N c [17]%N; WakeToken c; RecvCheck c;
+         Deposit 1%N c [17]%N; Deposit 1%N c2 [33]%N; Deposit 7%N c [7]%N; Deposit 2%N c [18]%N;
+         WakeToken c; RecvCheck c; RecvExit c]) =
+  [OEntered; OParked; ODep DStored; OWoken; OParked; ODep DAbsorbed; ODep DStored; ODep DDropped;
+   ODep DStored; OWoken; ORecvOk [(1, [17]); (2, [18])]%N; ONone].
+Proof. vm_compute. reflexivity. Qed.
+
+(* a conflicting retransmission poisons; the receive fails blaming sender 1; a cancelled receive
+   on another id leaves the payload for the next one *)
+Example C11_nonvacuous_conflict_cancel :
+  let c := recv_full [] [120]%N in
+  let d := recv_full [] [121]%N in
+  snd (run (init [1; 2; 9]%N)
+        [RecvEnter [] []; RecvCheck []; RecvExit [];
+         Deposit 1%N c [1]%N; Deposit 1%N c [2]%N; RecvEnter c [1]%N; RecvCheck c; RecvExit c;
+         Deposit 1%N d [5]%N; RecvEnter d [1; 2]%N; RecvCheck d; Cancel d; WakeAlt d; RecvCheck d; RecvExit d;
+         RecvEnter d [1]%N; RecvCheck d]) =
+  [OEntered; ORecvOk []; ONone;
+   ODep DStored; ODep DPoisoned; OEntered; ORecvErr (EConflict 1%N); ONone;
+   ODep DStored; OEntered; OParked; ONone; OWoken; ORecvErr ECancelled; ONone;
+   OEntered; ORecvOk [(1, [5])]%N].
+Proof. vm_compute. reflexivity. Qed.
+
+(* echo with three parties: honest run accepted by 1 and 2 with the same payload from 3; when 3
+   equivocates (sends [7] to 1 and [8] to 2) party 1 rejects *)
+Example C11_nonvacuous_echo :
+  let q := [1; 2; 3]%N in
+  let r2 (self : N) r1 := match round2 self q [] r1 with Some (_, o) => o | None => [] end in
+  let st (self : N) r1 := match round2 self q [] r1 with Some (s, _) => s | None => [] end in
+  let pick (dst : N) (o : list (N * r2msg)) := match alookup N.eqb dst o with Some m => m | None => [] end in
+  (let r1_1 := [(2, [5]); (3, [7])]%N in let r1_2 := [(1, [4]); (3, [7])]%N in let r1_3 := [(1, [4]); (2, [5])]%N in
+   round3 1%N q (st 1%N r1_1) [(2%N, pick 1%N (r2 2%N r1_2)); (3%N, pick 1%N (r2 3%N r1_3))] = Some [(2, [5]); (3, [7])]%N /\
+   round3 2%N q (st 2%N r1_2) [(1%N, pick 2%N (r2 1%N r1_1)); (3%N, pick 2%N (r2 3%N r1_3))] = Some [(1, [4]); (3, [7])]%N) /\
+  (let r1_1 := [(2, [5]); (3, [7])]%N in let r1_2 := [(1, [4]); (3, [8])]%N in let r1_3 := [(1, [4]); (2, [5])]%N in
+   round3 1%N q (st 1%N r1_1) [(2%N, pick 1%N (r2 2%N r1_2)); (3%N, pick 1%N (r2 3%N r1_3))] = None).
+Proof. vm_compute. repeat split; reflexivity. Qed.
